@@ -661,7 +661,7 @@ func main() {
 			if big {
 				sample = 300
 			}
-			e.Meta["parallel_priq"] = parPri(e.Rnd, e, e.Scale(2500, 25000), sample).String()
+			e.Meta["parallel_priq"] = parPri(e.Rnd, e, e.Scale(6000, 40000), sample).String()
 		}
 
 		lap("parallel_priq")
